@@ -1662,7 +1662,11 @@ theorem fi_doActionCore (w : World) (mid : Nat) (batch : Option Txn) (a : Action
         obtain ⟨e1, e2, e3⟩ := fi_txnExit _ _ g1
         exact ⟨⟨e1, e3 mid (g4 mid hex), fun t' ht' => by cases ht'⟩, e2.trans g2⟩
     | batchBegin c =>
-      exact ⟨⟨hf.drop.ofNone _ rfl, hex, fun t' ht' => by rw [← Option.some.inj ht']⟩, rfl⟩
+      cases batch with
+      | some t =>
+        obtain ⟨e1, e2, e3⟩ := fi_txnExit w t hf
+        exact ⟨⟨e1.ofNone _ rfl, e3 mid hex, fun t' ht' => by rw [← Option.some.inj ht']⟩, e2⟩
+      | none => exact ⟨⟨hf.ofNone _ rfl, hex, fun t' ht' => by rw [← Option.some.inj ht']⟩, rfl⟩
     | batchExecute =>
       cases batch with
       | some t =>
